@@ -36,6 +36,11 @@ fn gen_case(seed: &Rng, i: u64, tier: &str) -> (String, Vec<String>) {
     let mut r = seed.fork(i);
     let big = tier == "thorough";
     let class = i % 10;
+    if class == 8 && (i / 10) % 2 == 0 {
+        // templated loop-block / handoff-reference programs (see pgen::loop_ref_template)
+        let (lines, tag) = pgen::loop_ref_template(&mut r);
+        return (format!("class=8t {tag}"), lines);
+    }
     let cfg = match class {
         0 | 1 => pgen::Cfg { size: 6, loops: false, refs: false, cycles: true, malformed: false },
         2 | 3 => pgen::Cfg { size: 10, loops: true, refs: false, cycles: true, malformed: false },
@@ -104,6 +109,9 @@ pub fn run_partition_case(rec: &mut Recorder, mode: &str, n: u64, tag: &str, pli
     let out = run_partition(&flat, g);
     let es = oracle::dep_edges(&flat);
     let ids: Vec<u64> = flat.nodes.iter().map(|n| n.id).collect();
+    // the theorems' well-formedness hypotheses (edge heads / referencing nodes exist, edge ids unique) hold on
+    // every graph the real builder produces: the model evaluates them on the dump and must answer `true`
+    rec.line("wf", "true");
     rec.line("depcycle", if oracle::has_cycle(&ids, &es) { "true" } else { "false" });
     match &out {
         POut::Ok(pv) => {
